@@ -352,7 +352,9 @@ func (rb *Buffer) ReadFrom(r io.Reader) (n int64, err error) {
 			if m < 0 {
 				panic("RingBuffer.ReadFrom: reader returned negative count from Read")
 			}
-			rb.isEmpty = false
+			if m > 0 {
+				rb.isEmpty = false
+			}
 			rb.w = (rb.w + m) % rb.size
 			n += int64(m)
 			if err == io.EOF {
@@ -378,7 +380,9 @@ func (rb *Buffer) ReadFrom(r io.Reader) (n int64, err error) {
 			if m < 0 {
 				panic("RingBuffer.ReadFrom: reader returned negative count from Read")
 			}
-			rb.isEmpty = false
+			if m > 0 {
+				rb.isEmpty = false
+			}
 			rb.w = (rb.w + m) % rb.size
 			n += int64(m)
 			if err == io.EOF {
